@@ -1,7 +1,7 @@
 (* Properties_C10.v -- regex matches are genuine, leftmost, greedy/left-biased, right group spans.
    Statements only; proofs are in ReProps*.v. *)
 From Coq Require Import List NArith ZArith.
-From NV Require Import Bytes GenConsts ReSyntax ReParse ReEmit ReVM ReSem RsetDefs ReProps ReProps2 ReProps3 ReProps4 ReProps5.
+From NV Require Import Bytes GenConsts ReSyntax ReParse ReEmit ReVM ReSem RsetDefs ReProps ReProps2 ReProps3 ReProps4 ReProps5 ReProps9.
 Import ListNotations.
 
 (* whatever the backtracking machine reports is a genuine run of the program (cut or no cut) *)
@@ -71,6 +71,21 @@ Theorem C10_regcomp_layout : forall pat p, regcomp pat = Ok (Some p) ->
   code p = [IMark 0] ++ emit (tr (tree p)) 1 ++ [IMark 1; IMatch].
 Proof. exact regcomp_layout. Qed.
 Print Assumptions C10_regcomp_layout.
+
+(* the index rset_find returns is that of an alternative whose wrapper group grp[index] is set in
+   regexec's answer; the groups handed back are that alternative's own, renumbered from 0.
+   (_partial: that re_groupcount agrees with the parser's group numbering -- so that grp[] really
+   points at the wrapper groups -- is corresponded, not proved.) *)
+Theorem C10_rset_index_partial : forall d rs line n flg idx g c, rset_find_d d rs line n flg = (Ok (idx, g), c) -> (0 <= idx)%Z ->
+  exists subs, regexec_d d (rs_prog rs) (rs_cflg rs) line (rs_grpcnt rs)
+                 (Z.lor REG_NEWLINE (Z.lor (if has flg RE_NOTBOL then REG_NOTBOL else 0%Z) (if has flg RE_NOTEOL then REG_NOTEOL else 0%Z))) = (Ok (Some subs), c) /\
+    (idx < Z.of_nat (length (firstn (rs_n rs) (rs_grp rs))))%Z /\
+    let base := nth (Z.to_nat idx) (firstn (rs_n rs) (rs_grp rs)) (-1)%Z in
+    (0 <= base)%Z /\ (0 <= fst (nth (Z.to_nat base) subs ((-1)%Z, (-1)%Z)))%Z /\
+    g = map (fun i => if Nat.ltb i (nth (Z.to_nat idx) (rs_setgrpcnt rs) O + 1)
+                      then nth (Z.to_nat (nth (Z.to_nat idx) (rs_grp rs) 0%Z) + i) subs ((-1)%Z, (-1)%Z) else ((-1)%Z, (-1)%Z)) (seq 0 n).
+Proof. exact rset_index. Qed.
+Print Assumptions C10_rset_index_partial.
 
 (* the documented backtracking depth is a constant of the specification; the engine's limit is generated *)
 Theorem C10_documented_depth : (256 <= NDEPT)%Z.
